@@ -234,11 +234,45 @@ func init() {
 			}
 			rg.evalCase(ast, "nested "+strings.SplitN(strings.TrimLeft(text[strings.Index(text, "@")+1:], "("), " ", 2)[0], r, !strings.Contains(text, "(try"))
 		}
+		// function values of every kind handed to everything that calls a function
+		fvals := []string{
+			"(fn [& a] 1)", "(with-meta (fn [& a] 1) {:m 1})", "^{:m 1} (fn [& a] 1)", "list", "(with-meta list {:m 1})", "inc",
+			"(fn [& a] (throw {:c 1}))", "(fn [& a] (throw [1 2]))", "(fn [& a] (throw (list 1)))", "(with-meta (fn [& a] (throw #{1})) {:m 1})",
+			"(fn [& a] (throw nil))", "(fn [a] a)", ":k", "{:a 1}", "nil", "5", "(atom 1)", "(defmacro zq (fn [& a] 1))",
+		}
+		callers := []string{
+			"(@)", "(@ 1)", "(apply @ [1])", "(apply @ 1 [2])", "(map @ [1 2])", "(filter @ [1 2])", "(reduce @ 0 [1 2])", "(some @ [1 2])", "(every? @ [1 2])",
+			"(swap! (atom 1) @)", "(swap! (atom 1) @ 2)", "(deref (future-call @))", "(deref (future (@ 1)))", "(do (def fu (future-call @)) (future-cancel fu) (try (deref fu) (catch e 1)))",
+			"(do (defmacro zm @) (zm 1))", "(do (defmacro zm @) (macroexpand (quote (zm 1))))", "(do (defmacro zm @) (try (zm 1) (catch e e)))",
+			"(update {:a 1} :a @)", "(update-in {:a {:b 1}} [:a :b] @)", "(sort-by @ [2 1])", "((comp @ @) 1)", "((partial @ 1) 2)",
+			"(try (@ 1) (catch e (throw e)))", "(try (@ 1) (catch e (throw (conj e 2))))", "(try (@ 1) (catch e (throw e)) (finally 1))",
+			"(try (try (@ 1) (catch e (throw e))) (catch e2 e2))", "(try (@ 1) (finally (@ 2)))", "(try (throw (@ 1)) (catch e (throw e)))",
+			"((with-meta @ {:z 1}) 1)", "(meta @)", "(pr-str @)", "(str @)", "(= @ @)", "(let [g @] (g 1))", "(do (def g @) (g 1 2))",
+		}
+		fcalls := &vf.Family{
+			Name:   "function-values-x-callers",
+			Bounds: fmt.Sprintf("%d function-like values (closures, with metadata through with-meta and the ^ reader macro, builtins, closures throwing maps / vectors / lists / sets / nil, keywords, maps, non-functions, a macro) placed in %d calling contexts (direct call, apply, map, filter, reduce, swap!, future-call / future and deref, cancelled future, defmacro + call / macroexpand, update, update-in, comp, partial, try handlers that re-throw what they caught, finally, with-meta, printing, =)", len(fvals), len(callers)),
+			Setup:  setup,
+			N:      func(t string) int64 { tier = t; return int64(len(fvals) * len(callers)) },
+			Describe: func(i int64) string {
+				return strings.Replace(callers[i/int64(len(fvals))], "@", fvals[i%int64(len(fvals))], -1)
+			},
+			Run: nil,
+		}
+		fcalls.Run = func(i int64, r *vf.Rec) {
+			text := fcalls.Describe(i)
+			ast, err, p := lx.Read(text)
+			if p != nil || err != nil {
+				r.Note("text does not read")
+				return
+			}
+			rg.evalCase(ast, "function value in "+callers[i/int64(len(fvals))], r, !strings.Contains(text, "(try"))
+		}
 		return &vf.Check{
 			ID: "C04", Level: "model_checking",
 			Rule: "every AST of the bounded spaces is evaluated by the real EVAL under recover in a fresh scope with a poll-bounded context; a Go panic crossing EVAL is a violation (signature = panic site); every case that returned an error is re-run inside (try CASE (catch e :caught)) and must yield :caught; non-trivial = the case returned an error",
 			Assumptions: []string{"acyclic ASTs; (panic nil) excluded (Go runtime panicnil semantics); run-fn-for excluded (runs for seconds by design)", "worker stdin is /dev/null, stdout discarded"},
-			Families: []*vf.Family{special, builtins, nests},
+			Families: []*vf.Family{special, builtins, nests, fcalls},
 		}
 	})
 }
